@@ -46,10 +46,15 @@ def run_impl(ck, binary, cases, timeout=900):
 
 def main(ck):
     ck.trusted += [
-        "google.golang.org/protobuf/encoding/protowire Consume*/Append* are modelled (WireModel.v) and validated "
-        "against the real library on every case; encoding/base64, net/url, encoding/hex algorithms likewise (BytesModel.v)",
-        "harness/cmd/c14 (Go engine) and checks/C14*.py (generators, Coq term printers)",
-        "strconv / encoding/json scalar text (numbers, string escapes) is delegated to by the code and assumed",
+        "models of library code the origami functions delegate to, hand-written and validated against the real libraries on "
+        "every run (all 1- and 2-byte inputs + seeded longer ones): google protowire Consume*/Append* (WireModel.v), "
+        "encoding/base64 StdEncoding, encoding/hex, net/url QueryEscape/unescape (BytesModel.v), strings.TrimSpace (SerModel.v)",
+        "encoding/json text <-> tree, string escaping and float formatting are assumed: the JSON layer is modelled on trees whose "
+        "number tokens (integer-looking?, exact integer, nearest binary64) are read from the text by checks/C14_json.py",
+        "amd64 float64 -> int64 conversion and `val == float64(int64(val))` as modelled by f_integral / number_of_float (JsonModel.v)",
+        "md5 / hash: no model; digests compared with crypto/* inside the Go engine only",
+        "harness/cmd/c14 (Go engine), checks/C14*.py (generators, third encoder for protobuf trees, Coq term printers), "
+        "coq/C14/Hex.v + Exh.v (transport; Uint63 primitives appear only there, not under any theorem)",
     ]
     ok = ck.prove()
     binary, out = ck.go_build("c14")
